@@ -58,7 +58,7 @@ class ConcreteCtx:
     def reach(self, label):
         self.reached[label] = self.reached.get(label, 0) + 1
 
-    def prove(self, c, label, info=None, timeout_ms=None):
+    def prove(self, c, label, info=None, timeout_ms=None, witness=None):
         self.reach(label)
         if bool(c):
             self.passed += 1
@@ -113,3 +113,17 @@ def replay_harness(fn, kwargs, model, want_label=None):
             return True, 'replay on the real code: other obligations fail: %s' % sorted(set(labels))
         return False, 'replay on the real code: all %d obligations hold for the concrete model' % ctx.passed
     return bool(ctx.failed), 'failing obligations: %s' % sorted(set(labels))
+
+
+def digest_harness(fn, kwargs, model):
+    """run harness fn concretely and summarise what it observed (events, obligations) - used to compare the stubbed pipeline
+    with the unpatched one on the same concrete inputs"""
+    ctx = ConcreteCtx(model)
+    try:
+        fn(ctx, **kwargs)
+    except ReplayAssumeFailed as e:
+        return {'assume_failed': str(e)}
+    except Exception as e:  # noqa
+        return {'exception': type(e).__name__}
+    return {'events': dict(sorted(ctx.events.items())), 'passed': ctx.passed, 'failed': sorted(set(f['label'] for f in ctx.failed)),
+            'reached': sorted(ctx.reached)}
